@@ -170,6 +170,57 @@ def _build_mixin(m, root_is_exc):
     return attr.s(**kw)(cls)
 
 
+# ------------------------------------------------------------------------------------------ decorator histories
+def _own_getstate(self):
+    return {"own": True}
+
+
+def _own_setstate(self, state):
+    pass
+
+
+def _own_hash(self):
+    return 7
+
+
+def _own_init(self, *a, **k):
+    pass
+
+
+def _warm_base(kind, bases):
+    if kind == "same":
+        return bases
+    if kind == "slotted_attrs":
+        return (attr.s(slots=True, frozen=True)(type("WB", (object,), {"__module__": MOD, "hb": attr.ib(default=0)})),)
+    if kind == "dict_attrs":
+        return (attr.s(slots=False)(type("WB", (object,), {"__module__": MOD, "hb": attr.ib(default=0)})),)
+    return (object,)
+
+
+def _warm_up(d, cs, bases, next_gen):
+    """cs["deco_hist"]: classes the SAME decorator object is applied to before the class under test
+    [{"own": [getstate|setattr|hash|init], "base": object|same|slotted_attrs|dict_attrs, "field": bool}].
+    Class definition must be a function of the class alone: whatever these classes look like, and whether
+    or not their definition is accepted, the class under test must come out the same (harness-only variation)."""
+    for w in cs.get("deco_hist", ()):
+        ns = {"__module__": MOD}
+        own = w.get("own", [])
+        if "getstate" in own:
+            ns["__getstate__"], ns["__setstate__"] = _own_getstate, _own_setstate
+        if "setattr" in own:
+            _body_extras({"user_set": True}, ns)
+        if "hash" in own:
+            ns["__hash__"] = _own_hash
+        if "init" in own:
+            ns["__init__"] = _own_init
+        if w.get("field"):
+            ns["hw"] = (attrs.field if next_gen else attr.ib)(default=0)
+        try:
+            d(type("W", _warm_base(w.get("base", "object"), bases), ns))
+        except Exception:  # noqa: BLE001 -- a rejected warm-up class is part of the history
+            pass
+
+
 def _build_attrs(cs, bases):
     """initbuild.build_class for a tuple of bases, plus body-defined __setattr__/__delattr__"""
     name = cs.get("name", "C")
@@ -195,11 +246,15 @@ def _build_attrs(cs, bases):
         deco = {"attr.s": attr.s, "define": attrs.define, "frozen": attrs.frozen}[api]
         if api == "frozen":
             kw.pop("frozen", None)
-        return deco(**kw)(cls)
+        d = deco(**kw)                      # ONE decorator object ...
+        _warm_up(d, cs, bases, next_gen)    # ... possibly applied to other classes first
+        return d(cls)
     if api == "these":
         cls = type(name, bases, ns)
         these = {f["name"]: ib._field_obj(f, False) for f in fields}
-        return attr.s(these=these, **kw)(cls)
+        d = attr.s(these=these, **kw)
+        _warm_up(d, cs, bases, False)
+        return d(cls)
     if api == "make_class":
         body = {k: v for k, v in ns.items() if k != "__module__"}
         these = {f["name"]: ib._field_obj(f, False) for f in fields}
